@@ -519,7 +519,14 @@ func describe(fd protoreflect.FieldDescriptor) string {
 }
 
 // checkSet applies the C18 oracle to one descriptor set.
+var scope string // signature scope of the current case (single-threaded worker)
+
 func checkSet(t *vk.T, fdp *descriptorpb.FileDescriptorProto, coord string) {
+	scope = coord
+	if i := strings.Index(coord, "|label="); i > 0 {
+		scope = coord[:i] // matrix: the field type only
+	}
+	t.SigCoord("reflect|" + scope)
 	t.Coord(coord)
 	t.Nontrivial()
 	fd, err := protodesc.NewFile(fdp, protoregistry.GlobalFiles)
@@ -572,14 +579,14 @@ func checkSet(t *vk.T, fdp *descriptorpb.FileDescriptorProto, coord string) {
 				out, err := codec.ProtoToJSON(msg)
 				t.Step()
 				if err != nil {
-					t.Violation("codec-encode-fails|"+which+"|"+vk.ErrTail(err), fmt.Sprintf("reflection of %s succeeds but encoding the %s message fails: %v\n%s", md.FullName(), which, err, coord), coord, nil, err.Error())
+					t.Violation("codec-encode-fails|"+scope+"|"+which+"|"+vk.ErrTail(err), fmt.Sprintf("reflection of %s succeeds but encoding the %s message fails: %v\n%s", md.FullName(), which, err, coord), coord, nil, err.Error())
 					continue
 				}
 				back := dynamicpb.NewMessage(md)
 				err = codec.JSONToProto(out, back)
 				t.Step()
 				if err != nil {
-					t.Violation("codec-decode-fails|"+which+"|"+vk.ErrTail(err), fmt.Sprintf("reflection of %s succeeds but decoding the encoded %s message fails: %v\njson: %s\n%s", md.FullName(), which, err, out, coord), coord, nil, err.Error())
+					t.Violation("codec-decode-fails|"+scope+"|"+which+"|"+vk.ErrTail(err), fmt.Sprintf("reflection of %s succeeds but decoding the encoded %s message fails: %v\njson: %s\n%s", md.FullName(), which, err, out, coord), coord, nil, err.Error())
 				}
 			}
 			// NewRoot on a fresh reflector
@@ -617,7 +624,7 @@ func checkSchema(t *vk.T, schema j5schema.RootSchema, md protoreflect.MessageDes
 	seen := map[string]bool{}
 	for _, p := range client {
 		if seen[p.JSONName] {
-			t.Violation("duplicate-property-name", fmt.Sprintf("object %s has two properties named %q\n%s", md.FullName(), p.JSONName, coord), coord, nil, p.JSONName)
+			t.Violation("duplicate-property-name|"+scope, fmt.Sprintf("object %s has two properties named %q\n%s", md.FullName(), p.JSONName, coord), coord, nil, p.JSONName)
 		}
 		seen[p.JSONName] = true
 	}
@@ -625,7 +632,7 @@ func checkSchema(t *vk.T, schema j5schema.RootSchema, md protoreflect.MessageDes
 		for _, p := range set {
 			if len(p.ProtoField) == 0 {
 				if _, ok := p.Schema.(*j5schema.OneofField); !ok {
-					t.Violation("empty-proto-path", fmt.Sprintf("property %s of %s has an empty proto field path", p.JSONName, md.FullName()), coord, nil, nil)
+					t.Violation("empty-proto-path|"+scope, fmt.Sprintf("property %s of %s has an empty proto field path", p.JSONName, md.FullName()), coord, nil, nil)
 				}
 				continue
 			}
@@ -650,7 +657,7 @@ func checkSchema(t *vk.T, schema j5schema.RootSchema, md protoreflect.MessageDes
 				bad = kindMatches(p.Schema, fd)
 			}
 			if bad != "" {
-				t.Violation("proto-path-mismatch|"+sigOf(bad), fmt.Sprintf("property %s of %s (path %v): %s\n%s", p.JSONName, md.FullName(), p.ProtoField, bad, coord), coord, nil, bad)
+				t.Violation("proto-path-mismatch|"+scope+"|"+sigOf(bad), fmt.Sprintf("property %s of %s (path %v): %s\n%s", p.JSONName, md.FullName(), p.ProtoField, bad, coord), coord, nil, bad)
 			}
 		}
 	}
@@ -677,7 +684,6 @@ func run(r *vk.Runner) {
 			for _, a := range all {
 				ft, lb, a := ft, lb, a
 				r.Do(fmt.Sprintf("m:%s:%s:%s", ft.name, lb, a.name), func(t *vk.T) {
-					t.SigCoord("reflect")
 					checkSet(t, matrixCase(ft, lb, []annot{a}), fmt.Sprintf("type=%s|label=%s|annotation=%s", ft.name, lb, a.name))
 					if a.name == "validate:required" {
 						t.Sample(fmt.Sprintf("message M { %s %s f_val = 1 [%s]; }", lb, ft.name, a.name))
@@ -698,8 +704,7 @@ func run(r *vk.Runner) {
 							continue
 						}
 						r.Do(fmt.Sprintf("p:%s:%s:%s:%s", ft.name, lb, a.name, b.name), func(t *vk.T) {
-							t.SigCoord("reflect")
-							checkSet(t, matrixCase(ft, lb, []annot{a, b}), fmt.Sprintf("type=%s|label=%s|annotations=%s+%s", ft.name, lb, a.name, b.name))
+									checkSet(t, matrixCase(ft, lb, []annot{a, b}), fmt.Sprintf("type=%s|label=%s|annotations=%s+%s", ft.name, lb, a.name, b.name))
 						})
 					}
 				}
@@ -711,8 +716,7 @@ func run(r *vk.Runner) {
 							continue
 						}
 						r.Do(fmt.Sprintf("p:%s:%s:%s:%s", ft.name, lb, a.name, b.name), func(t *vk.T) {
-							t.SigCoord("reflect")
-							checkSet(t, matrixCase(ft, lb, []annot{a, b}), fmt.Sprintf("type=%s|label=%s|annotations=%s+%s", ft.name, lb, a.name, b.name))
+									checkSet(t, matrixCase(ft, lb, []annot{a, b}), fmt.Sprintf("type=%s|label=%s|annotations=%s+%s", ft.name, lb, a.name, b.name))
 						})
 					}
 				}
@@ -729,7 +733,6 @@ func run(r *vk.Runner) {
 	for _, name := range names {
 		name, f := name, st[name]
 		r.Do("s:"+name, func(t *vk.T) {
-			t.SigCoord("reflect")
 			checkSet(t, f, "structure="+name)
 			t.Sample("structure " + name)
 		})
